@@ -203,7 +203,7 @@ PROPS['C08'] = dict(
 KANI = dict(module='vx.kanieng', tier='thorough')
 PROPS['C03']['engines'] = [KANI]
 PROPS['C18']['engines'] = [REPLAY]
-PROPS['C04']['engines'] = [REPLAY]
+PROPS['C04']['engines'] = [dict(module='gvc.engine', args=dict(analyses=('frame',))), REPLAY]
 PROPS['C06']['engines'] = [dict(module='gvc.engine', args=dict(analyses=('pptotal', 'faithful'))), REPLAY]
 
 NOT_APPLICABLE = {
